@@ -624,3 +624,33 @@ def inline_using_aliases(ex, body):
         n += 1
     ex.rules_fired.append(('local using-alias inlined', n))
     return body
+
+
+C_KEYWORDS = {'if', 'else', 'for', 'while', 'return', 'break', 'continue', 'const', 'size_t', 'uintptr_t', 'type_id',
+              'struct', 'static', 'inline', 'void', 'int', 'bool', '_Bool', 'sizeof', 'do', 'switch', 'case', 'default', '__auto_type'}
+
+
+def nonlocal_assignments(body, params=()):
+    """Syntactic frame check for the (pointer-write free) call-path functions: every assignment target must be
+    a local declared in the body (or a parameter passed by value).  Returns the offending targets: identifiers
+    that are assigned / incremented but never declared, and stores through pointers or members."""
+    txt = re.sub(r'"(?:[^"\\]|\\.)*"', '""', body)
+    declared = set(params)
+    for m in re.finditer(r'(?:\b(?:const\s+)?(?:__auto_type|auto|std::size_t|size_t|std::uintptr_t|uintptr_t|type_id|bool|_Bool|int|const\s+uintptr_t\s*\*|const\s+std::uintptr_t\s*\*)\s*\**\s*)(\w+(?:\s*,\s*\w+)*)\s*(?:=|;)', txt):
+        for v in m.group(1).split(','):
+            declared.add(v.strip())
+    bad = []
+    # plain identifier targets
+    for m in re.finditer(r'(?<![\w.>\]\)])(\w+)\s*(?:[-+*/|&^]?=(?!=)|\+\+|--)', txt):
+        v = m.group(1)
+        if v in C_KEYWORDS or v in declared or v.isdigit():
+            continue
+        bad.append(v)
+    for m in re.finditer(r'(?:\+\+|--)\s*(\w+)\b', txt):
+        v = m.group(1)
+        if v not in declared and v not in C_KEYWORDS:
+            bad.append(v)
+    # stores through pointers / members / this
+    for m in re.finditer(r'(\*\s*\w+|\w+\s*(?:->|\.)\s*\w+|\w+\s*\[[^\]]*\])\s*(?:[-+*/|&^]?=(?!=)|\+\+|--)', txt):
+        bad.append(norm_ws(m.group(1)))
+    return sorted(set(bad))
